@@ -35,6 +35,11 @@ func (p *Prog) propsForFuncAll(fn *ssa.Function) []string {
 	if p.reaches(p.R.Open, func(g *ssa.Function) bool { return g == fn }) {
 		set["C01"] = true
 	}
+	for _, nm := range []string{"Check", "Recover"} {
+		if m := p.methodOf(p.R.Segment, nm); m != nil && (m == fn || p.reaches(m, func(g *ssa.Function) bool { return g == fn })) {
+			set["C07"] = true
+		}
+	}
 	if len(set) == 0 {
 		set["C07"] = true // package-level maintenance entry points (Check / Recover / Stat / Migrate dirs)
 	}
